@@ -1287,7 +1287,8 @@ class YearMonthDuration(Duration):
 
     def __truediv__(self, other: object) -> Union[float, 'YearMonthDuration']:
         if isinstance(other, self.__class__):
-            return self.months / other.months
+            # op:divide-yearMonthDuration-by-yearMonthDuration returns an xs:decimal
+            return Decimal(self.months) / Decimal(other.months)
         elif isinstance(other, (float, int, Decimal)):
             return YearMonthDuration(months=int(round_number(self.months / other)))
         else:
